@@ -22,6 +22,7 @@ func ExecOp(home, path string, o Op, env CmdEnv) (res clidrv.Result, ok bool) {
 	for _, t := range o.Ticks {
 		opts.TickTimes = append(opts.TickTimes, env.Clock().Add(gotime.Duration(t)*gotime.Second))
 	}
+	opts.OnTick = env.OnTick
 	out := cliutil.OutputFileArgs{File: app.FileOrBookmarkName(path)}
 	ns := cliutil.NoStyleArgs{NoStyle: true}
 	var date klog.Date
